@@ -1,34 +1,290 @@
 // Package c08: meaning does not depend on definition order, compilation or
-// re-evaluation.
+// re-evaluation. Exhaustive enumeration of program templates x every order of
+// the top-level definitions x evaluation modes, each executed on the real slip
+// and compared step by step with an order-independent reference evaluator.
 package c08
 
 import (
+	"crypto/sha256"
+	"encoding/hex"
 	"fmt"
+	"sort"
 	"strings"
+	"sync/atomic"
 
 	"verif/engine"
 )
 
 func init() {
 	engine.Register(&engine.Prop{
-		ID:        "C08",
-		Level:     "exploration",
-		Enumerate: func(tier string, emit func(string)) {},
+		ID:    "C08",
+		Level: "exploration",
+		Rule: "every program of the template alphabet x every order of its top-level definitions (macro definitions stay before their users) x every mode " +
+			"{each form read+eval; whole text read, eval; whole text Compile, eval; each form Compile, eval; load; load twice; same main Code evaluated 5x (plain / compiled / mixed); " +
+			"whole Code evaluated 3x (plain / compiled); redefine one definition, re-evaluate the same and a fresh main, restore (plain / compiled); main evaluated before any and after " +
+			"every definition (plain / compiled)}; value and (tr ..) trace of every evaluation of main are compared with an independent late-binding reference evaluator; " +
+			"a case is non-trivial when a call site or function designator was defined or compiled before its target existed, or when the mode evaluates a Code object more than once, " +
+			"compiles it, or redefines a function",
+		Assumptions: []string{
+			"the reference evaluator (props/c08/ref.go, a 600-line late-binding Lisp subset) is the oracle; its own sensitivity is shown by the mutated references",
+			"Code.Compile evaluating top-level defun/defvar/defmacro before the other top-level forms is documented (docs/features.md, Read and Eval) and modelled, not reported",
+			"macro definitions always precede the code that uses them (Common Lisp leaves the other order undefined; the statement speaks of functions)",
+			"what an evaluation returns or signals while a callee is still missing is not constrained (only Go faults are reported); the value of a definition form is not constrained",
+			"definition forms have no side effects except a traced defvar initial value",
+		},
+		Enumerate: enumerate,
 		Exec:      exec,
+		Required: []string{"fwd-plain-args", "fwd-plain-noargs", "fwd-special-args", "fwd-special-noargs", "fwd-ref", "compiled", "re-evaluated",
+			"redefinition-seen-by-old-caller", "early-failure-then-value", "mutual-recursion", "self-recursion", "macro-use",
+			"macro-expands-to-later-function", "defvar-read", "global-state", "closure", "closure-state", "code-as-data", "function-designator", "two-callers"},
+		Bound:    bound,
+		Selftest: selftest,
 	})
+}
+
+func bound(tier string) string {
+	progs, cases := 0, 0
+	fam := map[string]int{}
+	enumerate(tier, func(string) { cases++ })
+	for _, p := range allPrograms() {
+		if !p.thorough || tier == engine.Thorough {
+			progs++
+			fam[p.fam]++
+		}
+	}
+	var fs []string
+	for f, n := range fam {
+		fs = append(fs, fmt.Sprintf("%s=%d", f, n))
+	}
+	sort.Strings(fs)
+	shapes := "call graphs chain2, chain3, mutual2, mutual3, fan3, join3, recursive-leaf (<= 3 definitions) x 15 of 19 call contexts x 0..3 traced arguments x required/&optional parameters"
+	if tier == engine.Thorough {
+		shapes = "call graphs chain2..4, mutual2, mutual3, fan3, join3, diamond4, recursive-leaf (<= 4 definitions, all 24 orders) x all 19 call contexts x 0..3 traced arguments x " +
+			"required/&optional parameters, plus chain3 with every ordered pair of distinct contexts on its two edges"
+	}
+	return fmt.Sprintf("%d programs (%s): %s; macro / defvar / closure / code-as-data programs; every admissible order of the definitions; %d modes + one redefinition mode pair per "+
+		"redefinable definition; %d cases, all executed", progs, strings.Join(fs, " "), shapes, len(baseModes)+2, cases)
+}
+
+var caseCounter int64
+
+// uniqPrefix: unique function/variable names per execution (slip's function table is process-global).
+func uniqPrefix(spec string) string {
+	h := sha256.Sum256([]byte(spec))
+	n := atomic.AddInt64(&caseCounter, 1) - 1
+	return fmt.Sprintf("c8%sn%d-", hex.EncodeToString(h[:4]), n)
+}
+
+func parseSpec(spec string) (p *program, perm []int, mode string, err error) {
+	parts := strings.Split(spec, "|")
+	if len(parts) != 3 {
+		return nil, nil, "", fmt.Errorf("spec must be program|order|mode")
+	}
+	allPrograms()
+	if p = progByID[parts[0]]; p == nil {
+		return nil, nil, "", fmt.Errorf("unknown program %q", parts[0])
+	}
+	seen := map[int]bool{}
+	for _, c := range parts[1] {
+		d := int(c - '0')
+		if d < 0 || len(p.defs) <= d || seen[d] {
+			return nil, nil, "", fmt.Errorf("bad order %q", parts[1])
+		}
+		seen[d] = true
+		perm = append(perm, d)
+	}
+	if len(perm) != len(p.defs) {
+		return nil, nil, "", fmt.Errorf("order %q does not cover the %d definitions", parts[1], len(p.defs))
+	}
+	return p, perm, parts[2], nil
+}
+
+// fwdLabel names the order-shape of a case by its "strongest" forward edge:
+// a call site in a strict position (body form, function argument, progn) with
+// arguments > the same without arguments > a call site inside a conditional /
+// binding special form with / without arguments > a #'function designator.
+var fwdPriority = []string{"plain+args", "plain+noargs", "special+args", "special+noargs", "ref"}
+
+func fwdLabel(edges []fwdEdge) string {
+	set := map[string]bool{}
+	for _, e := range edges {
+		set[edgeName(e)] = true
+	}
+	for _, n := range fwdPriority {
+		if set[n] {
+			return n
+		}
+	}
+	return "none"
+}
+
+// sigMode groups the modes for signatures (the exact mode is in the spec and the detail).
+func sigMode(cls string) string {
+	switch cls {
+	case "each", "whole":
+		return "eval"
+	case "comp", "compeach", "load", "loadtwice":
+		return "compile"
+	case "rep", "mixrep", "wholerep":
+		return "repeat"
+	case "comprep", "compwholerep":
+		return "compile-repeat"
+	}
+	return cls // redef compredef early compearly
+}
+
+func edgeName(e fwdEdge) string {
+	if e.pos == "ref" {
+		return "ref"
+	}
+	if 0 < e.nargs {
+		return e.pos + "+args"
+	}
+	return e.pos + "+noargs"
+}
+
+func renderHistory(h []hstep, upto int, generic func(string) string) string {
+	var b strings.Builder
+	for i, st := range h {
+		if upto < i {
+			break
+		}
+		if 0 < i {
+			b.WriteString(" ;; ")
+		}
+		fmt.Fprintf(&b, "%c%d", st.op, st.slot)
+		if st.src != "" {
+			b.WriteString(" " + strings.ReplaceAll(generic(st.src), "\n", " "))
+		}
+	}
+	return b.String()
+}
+
+func sameTrace(a, b []string) bool {
+	if len(a) != len(b) {
+		return false
+	}
+	for i := range a {
+		if a[i] != b[i] {
+			return false
+		}
+	}
+	return true
 }
 
 func exec(spec string) (res engine.Result) {
 	if strings.HasPrefix(spec, "raw|") {
 		m := newMachine()
+		r := newRefMachine(mutNone)
 		var out []string
 		for i, st := range parseRaw(spec[4:]) {
-			if o, seen := m.do(st); seen {
-				out = append(out, fmt.Sprintf("#%d %c%d: %s", i, st.op, st.slot, o.String()))
+			o, seen := m.do(st)
+			ro, _ := r.do(st)
+			if seen {
+				out = append(out, fmt.Sprintf("#%d %c%d: %s   [ref: %s]", i, st.op, st.slot, o.String(), ro.String()))
 			}
 		}
+		out = append(out, "fwd="+fwdLabel(r.edges))
 		res.Outcome = strings.Join(out, "\n")
 		return
 	}
+	p, perm, mode, err := parseSpec(spec)
+	if err != nil {
+		res.Fail("harness:bad-spec", spec+": "+err.Error())
+		return
+	}
+	prefix := uniqPrefix(spec)
+	uniq := func(s string) string { return strings.ReplaceAll(s, "@", prefix) }
+	generic := func(s string) string { return strings.ReplaceAll(s, prefix, "@") }
+	h, err := buildHistory(p, perm, mode, uniq)
+	if err != nil {
+		res.Fail("harness:bad-spec", spec+": "+err.Error())
+		return
+	}
+	m := newMachine()
+	r := newRefMachine(mutNone)
+	cls := modeClass(mode)
+	var digest []string
+	evals := map[int]int{}
+	earlyFailed := false
+	failed := false
+	for i, st := range h {
+		ro, _ := r.do(st.step)
+		if st.check == chkExact && ro.err != nil {
+			res.Fail("harness:reference-fails", fmt.Sprintf("%s: reference fails at step %d of %s: %s", spec, i, renderHistory(h, i, generic), ro.String()))
+			return
+		}
+		o, seen := m.do(st.step)
+		if st.op == 'E' {
+			evals[st.slot]++
+			if 1 < evals[st.slot] && st.check == chkExact {
+				res.Hit("re-evaluated")
+			}
+		}
+		if st.op == 'C' || st.op == 'L' {
+			res.Hit("compiled")
+		}
+		if !seen {
+			continue
+		}
+		digest = append(digest, st.label+"="+generic(o.digest()))
+		sig := func(kind string) string {
+			return fmt.Sprintf("mode=%s fam=%s fwd=%s at=%s kind=%s", sigMode(cls), p.fam, fwdLabel(r.edges), st.label, kind)
+		}
+		detail := func(want string) string {
+			return fmt.Sprintf("%s: step %d (%s) of  %s  => %s; %s", spec, i, st.label, renderHistory(h, i, generic), generic(o.String()), want)
+		}
+		switch {
+		case o.err != nil && o.err.GoFault:
+			res.Fail(sig("go-fault"), detail("a Go runtime fault"))
+			failed = true
+		case st.check == chkOK:
+			// the value of a definition form is not constrained; its side effects are (a traced defvar initial value)
+			if o.err != nil {
+				res.Fail(sig("error:"+o.err.Class), detail("a definition / compile step must not fail"))
+				failed = true
+			} else if !sameTrace(o.trace, ro.trace) {
+				res.Fail(sig("wrong-trace"), detail("the reference traces "+strings.Join(ro.trace, ",")))
+				failed = true
+			}
+		case st.check == chkLenient && ro.err != nil:
+			earlyFailed = true // callee still missing: outcome not constrained
+		case st.check == chkExact || st.check == chkLenient:
+			want := "the reference gives " + generic(ro.String())
+			switch {
+			case o.err != nil:
+				res.Fail(sig("error:"+o.err.Class), detail(want))
+				failed = true
+			case o.val != ro.val || !sameTrace(o.outs, ro.outs):
+				res.Fail(sig("wrong-value"), detail(want))
+				failed = true
+			case !sameTrace(o.trace, ro.trace):
+				res.Fail(sig("wrong-trace"), detail(want))
+				failed = true
+			default:
+				if earlyFailed && st.check == chkExact {
+					res.Hit("early-failure-then-value")
+				}
+			}
+		}
+		if failed {
+			break // S3: only the first divergence of a case is reported
+		}
+	}
+	for _, e := range r.edges {
+		res.Hit("fwd-" + strings.ReplaceAll(edgeName(e), "+", "-"))
+	}
+	fl := fwdLabel(r.edges)
+	if fl == "plain+args" {
+		res.Hit("cases-containing-the-known-trigger-plain+args")
+	}
+	if r.redefSeen {
+		res.Hit("redefinition-seen-by-old-caller")
+	}
+	for _, f := range p.feats {
+		res.Hit(f)
+	}
+	res.Nontrivial = fl != "none" || (cls != "each" && cls != "whole")
+	res.Outcome = strings.Join(digest, " | ")
 	return
 }
